@@ -242,6 +242,34 @@ const CROSS: [(&str, &str); 7] = [
     ("function", "stel g = functie() { 1 }"),
 ];
 const CROSS_VAR: [&str; 7] = ["n", "b", "i", "f", "s", "a", "g"];
+/// the same values as literals (null and functions have no literal that denotes the same value twice)
+const CROSS_LIT: [Option<&str>; 7] = [None, Some("ja"), Some("3"), Some("1.5"), Some("\"a\""), Some("[1]"), None];
+
+/// the syntactic forms of `L op R` for operands of the cross product: where the operands live decides which instruction
+/// the compiler picks (generic, or fused with a local and a literal)
+fn cross_forms(l: usize, op: &str, r: usize) -> Vec<(&'static str, String)> {
+    let decls: String = CROSS.iter().map(|c| format!("{}; ", c.1)).collect();
+    let (lv, rv) = (CROSS_VAR[l], CROSS_VAR[r]);
+    let mut v = vec![
+        ("globals", format!("{decls}{lv} {op} {rv}")),
+        ("parameters", format!("{decls}functie t(l, r) {{ l {op} r }} t({lv}, {rv})")),
+        ("locals", format!("functie t() {{ {decls}{lv} {op} {rv} }} t()")),
+    ];
+    if let Some(rl) = CROSS_LIT[r] {
+        v.push(("global-literal", format!("{decls}{lv} {op} {rl}")));
+        v.push(("parameter-literal", format!("{decls}functie t(l) {{ l {op} {rl} }} t({lv})")));
+        v.push(("local-literal", format!("functie t() {{ {decls}{lv} {op} {rl} }} t()")));
+    }
+    if let Some(ll) = CROSS_LIT[l] {
+        v.push(("literal-global", format!("{decls}{ll} {op} {rv}")));
+        v.push(("literal-parameter", format!("{decls}functie t(r) {{ {ll} {op} r }} t({rv})")));
+        v.push(("literal-local", format!("functie t() {{ {decls}{ll} {op} {rv} }} t()")));
+    }
+    if let (Some(ll), Some(rl)) = (CROSS_LIT[l], CROSS_LIT[r]) {
+        v.push(("literals", format!("{ll} {op} {rl}")));
+    }
+    v
+}
 
 fn cross_oracle(l: usize, op: &str, r: usize) -> Expect {
     let arith = matches!(op, "+" | "-" | "*" | "/" | "%");
@@ -367,11 +395,48 @@ pub fn run(ctx: &Ctx) -> Report {
     for l in 0..7 {
         for rr in 0..7 {
             for op in OPS {
-                let src = format!("{decls}{} {op} {}", CROSS_VAR[l], CROSS_VAR[rr]);
                 let e = cross_oracle(l, op, rr);
+                for (form, src) in cross_forms(l, op, rr) {
+                    rep.nontrivial(&src);
+                    rep.count("cross-type");
+                    rep.count(&format!("cross-form:{form}"));
+                    check_src(&mut rep, "cross", &format!("cross:{}-{}:{form}", CROSS[l].0, CROSS[rr].0), op, &src, &e);
+                }
+            }
+        }
+    }
+    // (4) both operands are the SAME object (one variable, an alias, one array element read twice): IEEE comparison of a NaN
+    //     with itself, identity shortcuts
+    let specials: [(&str, f64); 7] = [("float(\"NaN\")", f64::NAN), ("(0.0 / 0.0)", f64::NAN), ("float(\"inf\")", f64::INFINITY), ("(float(\"inf\") - float(\"inf\"))", f64::NAN), ("0.0", 0.0), ("(-0.0)", -0.0), ("1.5", 1.5)];
+    for (text, v) in specials {
+        // `0.0 / 0.0` is only used if the implementation agrees that it is a NaN-valued expression (float division by zero is not an error)
+        for op in OPS {
+            let e = float_oracle(v, op, v);
+            for (form, src) in [
+                ("same-global", format!("stel x = {text}; x {op} x")),
+                ("same-parameter", format!("functie t(x) {{ x {op} x }} t({text})")),
+                ("same-local", format!("functie t() {{ stel x = {text}; x {op} x }} t()")),
+                ("alias", format!("stel x = {text}; stel y = x; x {op} y")),
+                ("two-parameters-one-object", format!("functie t(x, y) {{ x {op} y }} stel v = {text}; t(v, v)")),
+                ("array-element-twice", format!("stel r = [{text}]; r[0] {op} r[0]")),
+            ] {
                 rep.nontrivial(&src);
-                rep.count("cross-type");
-                check_src(&mut rep, "cross", &format!("cross:{}-{}", CROSS[l].0, CROSS[rr].0), op, &src, &e);
+                rep.count("same-object");
+                check_src(&mut rep, "same-object", &format!("same-object:{form}"), op, &src, &e);
+            }
+        }
+    }
+    for text in ["\"\"", "\"a\"", "\"é€\""] {
+        for op in OPS {
+            let e = str_oracle("a", op, "a");
+            for (form, src) in [
+                ("same-global", format!("stel x = {text}; x {op} x")),
+                ("same-parameter", format!("functie t(x) {{ x {op} x }} t({text})")),
+                ("alias", format!("stel x = {text}; stel y = x; x {op} y")),
+            ] {
+                rep.nontrivial(&src);
+                rep.count("same-object");
+                check_src(&mut rep, "same-object", &format!("same-object-string:{form}"), op, &src, &e);
             }
         }
     }
